@@ -15,7 +15,13 @@ For ALL histories:
         nor created by a pooled tx (NEW: false before the repair, F13b);
   (2b, insertion side) `orphan_indexed_at_insertion` — a transaction parked as an orphan is indexed
         under EACH of its missing parents, whatever their number (false before the repair, F13a).
-What still FAILS for the code as it is, each with its witness:
+For all CALM histories — no `RemoveTransaction`, pool below `maxNewTxNum` after every operation —
+over universes whose transactions only spend original outputs (`NoRetSpend`):
+  (2b)+(3)+(4) `calm_history_consistent` — every orphan is indexed under every output it waits
+        for, no transaction is pooled and orphaned, and no orphan has all parents available, i.e.
+        promotion is eager and transitive for chains, diamonds and multi-parent orphans (the
+        `processOrphans` queue is run to exhaustion; its fuel is proved sufficient).
+Both hypotheses of "calm" are necessary — what still FAILS for the code as it is:
   * `processOrphans`/`addRely` delete the whole bucket of an arrived output; when that parent is
     later removed from the pool (`RemoveTransaction`) the orphan waits for it again but is indexed
     nowhere: `c22_indexed_after_remove_refuted` (2b), `c22_promoted_after_remove_refuted` (4),
@@ -24,7 +30,7 @@ What still FAILS for the code as it is, each with its witness:
     `c22_single_input_poolfull_refuted` — open findings P22a–c.
 The witnesses of the repaired F13a–d are `example`s that now satisfy all clauses.
 -/
-import BytomModel.Lemmas.TxPoolWaits
+import BytomModel.Lemmas.TxPoolPromote3
 
 namespace BytomModel.Props.C22
 open BytomModel.TxPool BytomModel.Lemmas.TxPool
@@ -193,5 +199,63 @@ theorem c22_single_input_poolfull_refuted :
     (opIn_of_submits _ _ (by decide))
   revert this
   decide
+
+/-! ### eager, transitive promotion in calm histories -/
+
+instance (U : List Tx) : Decidable (NoRetSpend U) := by unfold NoRetSpend; infer_instance
+
+instance decCalm (c : Cfg) : (s : Pool) → (now : Nat) → (ops : List Op) → Decidable (Calm c s now ops)
+  | _, _, [] => isTrue trivial
+  | s, now, op :: ops =>
+    let h2 : Decidable (Calm c (step c s now op).1 (now + 1) ops) := decCalm c _ _ ops
+    let h1 : Decidable (match op with | .remove _ => False | _ => True) :=
+      match op with
+      | .remove _ => isFalse id
+      | .submit _ => isTrue trivial
+      | .expire _ => isTrue trivial
+    @instDecidableAnd _ _ h1 (@instDecidableAnd _ _ inferInstance h2)
+
+/-- **C22 (2b), (3), (4)** for every history without `RemoveTransaction` in which the pool stays
+    below its limit: every registered orphan is indexed under each unavailable output it spends,
+    is not pooled, and still misses a parent — so an orphan is promoted in the very operation
+    that makes its last parent available, transitively. -/
+theorem calm_history_consistent (U : List Tx) (wf : WF U) (nrs : NoRetSpend U) (c : Cfg) (ops : List Op)
+    (hops : ∀ op ∈ ops, OpIn U op) (hcalm : Calm c Pool.empty 0 ops) :
+    inv2b c (run c ops) ∧ inv3 (run c ops) ∧ inv4 c (run c ops) := by
+  have hJ : J c (run c ops) [] :=
+    J_runFrom wf nrs c ops Pool.empty 0 (Inv.empty U) (J_empty c) hops hcalm
+  have hnd : KeysNodup (run c ops).orphans :=
+    orph_nodup_runFrom c ops Pool.empty 0 (by simp [KeysNodup, Pool.empty])
+  have hget : ∀ e ∈ (run c ops).orphans, amGet (run c ops).orphans e.1 = some e.2 :=
+    fun e he => amGet_of_mem_nodup _ hnd e he
+  have hun : ∀ p, available c (run c ops) p = false → Unavail c (run c ops) p := by
+    intro p h
+    unfold available at h
+    rw [amHas_eq] at h
+    unfold Unavail
+    cases hc : c.conf.contains p <;> cases hg : amGet (run c ops).utxo p <;> simp_all
+  refine ⟨?_, ?_, ?_⟩
+  · intro e he p hp hav
+    obtain ⟨m, hm, hin⟩ := hJ.idx e.1 e.2 (hget e he) p hp (hun p hav)
+    unfold inBucket
+    rw [hm]
+    simp only
+    rw [amHas_eq]
+    cases h : amGet m e.1 with
+    | none => exact absurd h hin
+    | some _ => rfl
+  · intro e he
+    rw [amHas_eq, hJ.disj e.1 e.2 (hget e he)]
+    rfl
+  · intro e he
+    rcases hJ.pend e.1 e.2 (hget e he) with ⟨p, hp, hu⟩ | h
+    · refine ⟨p, hp, ?_⟩
+      unfold available
+      rw [amHas_eq, hu.1, hu.2]; rfl
+    · cases h
+
+/-- the hypotheses are met by a non-trivial history: a diamond delivered leaves-first
+    (tests by evaluation) -/
+example : NoRetSpend wU ∧ Calm wCfg Pool.empty 0 ([wT3, wT2, wT1].map Op.submit) := by decide
 
 end BytomModel.Props.C22
